@@ -68,6 +68,11 @@ func (p *FunctionBuilder) CreateFunction(m *bmodel.MethodEntry) (*gmodel.Functio
 		return nil, logger.Errorf("%v: reverse needs a pointer as the first argument", p.fset.Position(m.Method.Pos()))
 	}
 
+	if sig, ok := m.Method.Type().(*types.Signature); ok && sig.Variadic() {
+		// The function would be emitted with a slice in place of the variadic parameter.
+		return nil, logger.Errorf("%v: variadic parameters are not supported", p.fset.Position(m.Method.Pos()))
+	}
+
 	if util.IsInvalidType(src.Type()) {
 		return nil, logger.Errorf("%v: src type is not defined. make sure to be imported", p.fset.Position(src.Pos()))
 	}
